@@ -35,6 +35,8 @@ class PoolGen:
         if weights:
             self.w.update(weights)
         self.cfg = cfg or {}
+        # ticks of model time per second (1: whole seconds; 4: quarter seconds, validated with VipPoolTrace_fine.cfg)
+        self.K = self.cfg.get("tick", 1)
         # "a1L" is wallet a1 spelled in lower case: the same key, a different identity string
         self.accts = ACCTS + (["a1L"] if self.cfg.get("walletcase") else [])
 
@@ -56,8 +58,11 @@ class PoolGen:
             price = self.cfg.get("price", r.choice([1, 7, 60, 61, 1000]))
         else:
             price = self.cfg.get("price", r.choice([60, 120, 600]))
+        interval = self.cfg.get("interval", 60 if self.K == 1 else r.choice([60 * self.K, 6, 7, 1, 250]))
+        if unit != "1" and self.K > 1:
+            price = interval * (price // 60)      # whole units per tick (the money abstraction counts units)
         op = {"op": "Reset", "pool": True, "nodes": NODES + ["x9"], "accts": self.accts, "unit": unit,
-              "price": price, "interval": 60,
+              "price": price, "interval": interval,
               "maxhosts": self.cfg.get("maxhosts", r.choice([0, 0, 1, 2, 3])),
               "fee": self.cfg.get("fee", r.choice([0, 10]))}
         minbal = self.cfg.get("minbal", r.choice(["off", "off", -50, 0, 40]))
@@ -161,7 +166,11 @@ class PoolGen:
     def sleep(self, d=None):
         if self.race:
             return
-        d = d if d is not None else self.r.choice([1, 1, 5, 30, 59, 60, 60, 61, 90, 119, 120, 121, 300])
+        K = self.K
+        if d is None:
+            d = self.r.choice([1, 1, 5, 30, 59, 60, 60, 61, 90, 119, 120, 121, 300])
+            if K > 1:   # fractions of a second around the same boundaries
+                d = max(1, d * K + self.r.choice([0, 0, -1, 1, 2, -(K // 2)])) if self.r.random() < 0.7 else self.r.choice([1, 2, 3, K - 1, K + 1])
         self.emit({"op": "Sleep", "d": d})
         self.now += d
 
@@ -211,7 +220,8 @@ class PoolGen:
         k = self.conn_for(node)
         op = {"op": "Update", "conn": k, "peers": [], "block": 1, "ident": node, "alter": "none"}
         last = self.last_nonce.get(node, 0)
-        op["nonce"] = r.choice([last, last - 1, (self.now - 901) * 1000, (self.now - 899) * 1000 + 1, last + 1])
+        K = self.K
+        op["nonce"] = r.choice([last, last - 1, (self.now - 900 * K - 1) * 1000, (self.now - 900 * K + 1) * 1000 + 1, last + 1])
         self.last_nonce[node] = max(last, op["nonce"])
         self.emit(op)
 
@@ -387,9 +397,10 @@ class PoolGen:
         still be served, one below it must be cut off"""
         r = self.r
         price = self.conf["price"]
-        if self.conf["unit"] != "1" or price not in (1, 60):
+        iv = self.conf["interval"]
+        if self.conf["unit"] != "1" or iv % price != 0:
             return
-        d = 60 // price
+        d = iv // price      # one unit per keep-alive
         c, h = r.choice(CLIENTS), r.choice(HOSTS)
         self.connect(h, full=True)
         self.connect(c, full=False)
@@ -493,4 +504,7 @@ def pool_script(seed, ntraces, nops, driver, workdir, cfg=None, weights=None, ra
         g = PoolGen(rnd, cfg=cfg, weights=weights, race=race)
         g.session(nops)
         ops += g.ops
-    return {"driver": driver, "dir": "%s/badger-pool-%d" % (workdir, seed), "seed": seed, "ops": ops}
+    sc = {"driver": driver, "dir": "%s/badger-pool-%d" % (workdir, seed), "seed": seed, "ops": ops}
+    if cfg and cfg.get("tick", 1) > 1:
+        sc["tick_ms"] = 1000 // cfg["tick"]
+    return sc
